@@ -12,6 +12,13 @@ import re
 import xml.etree.ElementTree as ET
 
 SC = re.compile(r"\bS\d+\b")
+# failure message tokens the harness puts into panic payloads: P|<scenario>|<attempt>|<kind><hook><index>
+MSG = re.compile(r"P\|S\d+\|\d+\|[A-Za-z]+\d*")
+
+
+def _msg(text):
+    m = MSG.search(text or "")
+    return m.group(0) if m else ""
 # decoration appended by the harness to every name / step text of a "decorated" universe
 DECORS = [" \"q\" <&> ]]> \u00e9\u4e16 'a' \\n", " \"q\" <&> \u00e9\u4e16 'a' \\n"]
 STATUS_MARK = {"✔": "passed", "?": "skipped", "✘": "failed"}
@@ -54,22 +61,30 @@ _SCEN_LINE = re.compile(r"^\s*Scenario(?: Outline)?: (.*?)(?: \| Retry attempt:?
 def parse_terminal(text, tables):
     facts = []
     cur = ""
+    last_failed = None      # the failed fact whose detail lines are being read
     for line in text.splitlines():
         m = _SCEN_LINE.match(line)
         if m:
             t = SC.search(m.group(1))
             cur = t.group(0) if t else ""
+            last_failed = None
             continue
         m = _HOOK_LINE.match(line)
         if m and line.startswith(" "):
-            facts.append(["hook", cur, -1 if m.group(1) == "Before" else -2, "failed"])
+            facts.append(["hook", cur, -1 if m.group(1) == "Before" else -2, "failed", ""])
+            last_failed = facts[-1]
             continue
         m = _STEP_LINE.match(line)
         if m and line.startswith(" "):
-            facts.append(["step", cur, _idx(tables, cur, m.group(3)), STATUS_MARK[m.group(1)]])
+            facts.append(["step", cur, _idx(tables, cur, m.group(3)), STATUS_MARK[m.group(1)], ""])
+            last_failed = facts[-1] if facts[-1][3] == "failed" else None
             continue
         if line.startswith("Failed to parse"):
-            facts.append(["perr", "", 0, "failed"])
+            facts.append(["perr", "", 0, "failed", ""])
+            last_failed = None
+            continue
+        if last_failed is not None and not last_failed[4]:
+            last_failed[4] = _msg(line)
     return facts, {"wellformed": True}
 
 
@@ -106,19 +121,21 @@ def parse_libtest(text, tables):
         status = {"ok": "passed", "failed": "failed", "ignored": "skipped"}.get(ev, ev)
         info["n_" + {"passed": "ok", "failed": "failed", "skipped": "ignored"}.get(status, "failed")] += 1
         if name.startswith("Feature: Parsing"):
-            facts.append(["perr", "", 0, "failed"])
+            facts.append(["perr", "", 0, "failed", ""])
             continue
         t = SC.search(name.split("Scenario:")[-1]) if "Scenario:" in name else None
         scen = t.group(0) if t else ""
         last = name.split("::")[-1]
         m = re.match(r"^(Before|After) hook$", last)
         if m:
-            facts.append(["hook", scen, -1 if m.group(1) == "Before" else -2, status])
+            facts.append(["hook", scen, -1 if m.group(1) == "Before" else -2, status,
+                          _msg(j.get("stdout", "")) if status == "failed" else ""])
             continue
         rm = re.search(r"Retry attempt (\d+)/(\d+)", name)
         m = re.match(r"^\d+:\s+(?:\S+ )??(?:Given|When|Then|And|But|\*) (.*)$", last)
         text_ = m.group(1) if m else last
-        facts.append(["step", scen, _idx(tables, scen, text_), status])
+        facts.append(["step", scen, _idx(tables, scen, text_), status,
+                      _msg(j.get("stdout", "")) if status == "failed" else ""])
     info["unpaired"] += sum(v for v in open_names.values() if v > 0)
     return facts, info
 
@@ -140,15 +157,16 @@ def parse_json(text, tables):
             if not scen:
                 # parser-error pseudo features
                 for s in el.get("steps", []):
-                    facts.append(["perr", "", 0, "failed"])
+                    facts.append(["perr", "", 0, "failed", ""])
                 continue
             for s in el.get("steps", []):
-                facts.append(["step", scen, _idx(tables, scen, s.get("name", "")),
-                              st.get(s["result"]["status"], s["result"]["status"])])
+                stt = st.get(s["result"]["status"], s["result"]["status"])
+                facts.append(["step", scen, _idx(tables, scen, s.get("name", "")), stt,
+                              _msg(s["result"].get("error_message", "")) if stt == "failed" else ""])
             for h, key in (("before", -1), ("after", -2)):
                 for r in el.get(h, []):
                     if r["result"]["status"] == "failed":
-                        facts.append(["hook", scen, key, "failed"])
+                        facts.append(["hook", scen, key, "failed", _msg(r["result"].get("error_message", ""))])
     return facts, info
 
 
@@ -165,7 +183,7 @@ def parse_junit(text, tables):
         for case in suite.iter("testcase"):
             info["testcases"] += 1
             if suite.get("name") == "Errors":
-                facts.append(["perr", "", 0, "failed"])
+                facts.append(["perr", "", 0, "failed", ""])
                 continue
             body = ""
             kind = "success"
